@@ -145,7 +145,7 @@ def gen_execution(rnd, lines, want_tail=True, n_ex=None, faults=True):
         ex = {}
         kind = rnd.choice(["good"] * 5 + ["dup", "unknown", "flags", "crsess", "eodsess", "unexpected", "badver", "badlen",
                                            "fault", "errpdu", "creset", "notify", "intr", "sendfail", "openfail", "stopstart",
-                                           "park", "expire", "ivs", "f1seq", "restart", "notifywait", "firstnotcr", "hangup", "parkcb"]) if faults else "good"
+                                           "park", "expire", "ivs", "f1seq", "restart", "notifywait", "firstnotcr", "hangup", "parkcb", "lateintr", "straywait", "badverthenv0"]) if faults else "good"
         if rnd.random() < 0.6:
             c.mutate()
         if rnd.random() < 0.3:
@@ -210,6 +210,17 @@ def gen_execution(rnd, lines, want_tail=True, n_ex=None, faults=True):
                 f["v"] = rnd.choice([2, 7, 255, 255 - 0] + ([0] if c.cv == 1 and p > 0 else []) + ([1] if c.cv == 0 else []))
                 items[p] = {"f": f}
                 return items
+        elif kind == "badverthenv0":          # a refused first PDU (wrong version) followed by an answer in version 0
+            def corrupt(items, base):
+                if c.cv == 0:
+                    return items
+                first = {"f": {"t": rnd.choice(["cache_response", "cache_reset"]), "v": rnd.choice([2, 3, 255]), "sess": c.sess}}
+                rest = []
+                for it in items:
+                    f = dict(it["f"])
+                    f["v"] = 0
+                    rest.append({"f": f})
+                return [first] + rest
         elif kind == "badlen":
             def corrupt(items, base):
                 items = [dict(x) for x in items]
@@ -268,6 +279,18 @@ def gen_execution(rnd, lines, want_tail=True, n_ex=None, faults=True):
         if kind == "restart":
             c.restart()
             alts = c.alts()
+        if kind == "badverthenv0":
+            ex["keepopen"] = 1
+        if kind in ("badver", "unexpected", "firstnotcr") and rnd.random() < 0.5:
+            ex["keepopen"] = 1           # a cache that keeps talking after the client's Error Report
+        if kind == "lateintr":           # the wait for the next refresh is re-entered after its deadline has passed
+            for a in alts:
+                a["items"] = a["items"] + [{"tick": rnd.choice([100, 5000, 100000])}, {"fault": "intr"}]
+        if kind == "straywait":          # a PDU that is ignored while established, then the wait is re-entered
+            for a in alts:
+                stray = rnd.choice([{"t": "cache_reset", "v": v}, {"t": "error", "v": v, "code": 2, "enc": "", "txt": ""},
+                                    {"t": "cache_response", "v": v, "sess": c.sess}])
+                a["items"] = a["items"] + [{"tick": rnd.choice([10, 5000, 100000])}, {"f": stray}]
         if kind == "notifywait":
             for a in alts:
                 a["items"] = a["items"] + [{"tick": rnd.randrange(1, 50)}, {"f": {"t": "serial_notify", "v": v, "sess": c.sess, "sn": str(c.serial)}}]
